@@ -19,6 +19,7 @@ use quote::ToTokens;
 use std::collections::{BTreeMap, BTreeSet};
 use std::fmt::Write as _;
 
+mod bodies;
 mod emit;
 mod graph;
 
@@ -905,6 +906,10 @@ fn collect_carriers(
 
 fn main() {
     let args: Vec<String> = std::env::args().collect();
+    if args.get(1).map(|a| a == "--bodies").unwrap_or(false) {
+        // Layer P: bodies of the pointer functions as PtrLang programs (see bodies.rs)
+        std::process::exit(bodies::main(&args[2..]));
+    }
     let repo = std::env::var("VERIF_REPO").unwrap_or_else(|_| "/repo".to_string());
     let out_v = args.get(1).cloned().unwrap_or_else(|| "/verif/coq/Gen/Sigs.v".to_string());
     let out_json = args.get(2).cloned();
